@@ -95,6 +95,10 @@ AttOK ==
           /\ e.calls = Ev.calls                                       \* FiresIff / ArgBinding / OnlyGraphRuns
           /\ \A r \in Rng(Ev.recs) : RecAllowed(r, c)                 \* NothingElsewhere
           /\ ObsOK(c, e.v)                                            \* ObserversExact
+          \* Isolation: the time limit of a datasource attempt (SIGALRM, armed under a HostContext) belongs to
+          \* that attempt; the attempt is one atomic step of DrEngine, so no timer is pending after it,
+          \* whatever its outcome (a leftover would fire inside some later, healthy component)
+          /\ ~Ev.alarm
 
 EndOK(E) ==
     /\ AllDone
@@ -161,6 +165,7 @@ DiagAtt ==
              (IF Len(Ev.obs) > Cardinality(ObserversFor(c)) THEN "ObserversExact.fired-twice-or-foreign:" \o Kind(c)
               ELSE IF {Ev.obs[i].t : i \in DOMAIN Ev.obs} # ObserversFor(c) THEN "ObserversExact.not-fired:" \o Kind(c)
               ELSE "ObserversExact.fired-before-the-state-change:" \o Kind(c))
+         ELSE IF Ev.alarm THEN "Isolation.time-limit-left-armed:" \o Kind(c) \o ":" \o prog[c].outc
          ELSE "att.unknown"
 
 DiagEnd ==
